@@ -800,8 +800,14 @@ fn systematic(thorough: bool) -> Vec<Case> {
             out.push(Case { target: ti as u8, src: Src::Raw(Bytes(vec![])), inner: vec![], muts: m });
         }
     }
-    pairs::pair_cases(thorough, &mut out);
-    pairs::csi_cases(thorough, &mut out);
+    // ICYV_C02_SKIP=pairs,csi (debugging aid): leave tables out to time the rest
+    let skip = std::env::var("ICYV_C02_SKIP").unwrap_or_default();
+    if !skip.contains("pairs") {
+        pairs::pair_cases(thorough, &mut out);
+    }
+    if !skip.contains("csi") {
+        pairs::csi_cases(thorough, &mut out);
+    }
     let mut seen_groups = Vec::new();
     for (ti, t) in TARGETS.iter().enumerate() {
         let representative = match t.kind {
